@@ -165,8 +165,28 @@ def _prune(prefix, keep):
                 pass
 
 
+MEMCHECK_WRAP = ("valgrind --tool=memcheck --quiet --error-exitcode=97 --exit-on-first-error=yes --leak-check=no "
+                 "--undef-value-errors=yes --track-origins=no --num-callers=12 --fair-sched=no")
+
+
 def build(engine, cfg, extra_flags=(), extra_repo_cpp=(), libs=()):
-    """Build harness/<engine>.cpp in configuration cfg. Returns (binary, env)."""
+    """Build harness/<engine>.cpp in configuration cfg. Returns (binary, env).
+
+    "<cfg>+memcheck" is the binary of <cfg> run under valgrind memcheck (the
+    runner prepends env["VERIF_WRAP"]): same build, other oracle."""
+    if cfg.endswith("+memcheck"):
+        binary, env = build(engine, cfg[:-len("+memcheck")], extra_flags, extra_repo_cpp, libs)
+        env = dict(env)
+        env["VERIF_WRAP"] = MEMCHECK_WRAP
+        return binary, env
+    if cfg.endswith("+memcheck-addr"):
+        # addressability only (reads/writes of freed or never-allocated memory). Definedness checking is off on purpose: an
+        # optimistic (OLC) reader legitimately computes on bytes a concurrent writer has not written yet and discards the
+        # result when its version check fails, which memcheck would report as a use of uninitialised values.
+        binary, env = build(engine, cfg[:-len("+memcheck-addr")], extra_flags, extra_repo_cpp, libs)
+        env = dict(env)
+        env["VERIF_WRAP"] = MEMCHECK_WRAP.replace("--undef-value-errors=yes", "--undef-value-errors=no")
+        return binary, env
     flags, env = CONFIGS[cfg]
     flags = list(flags) + list(extra_flags)
     src = os.path.join(HARNESS, engine + ".cpp")
